@@ -692,10 +692,12 @@ Print Assumptions C11_three_views.
     a match: [image_nodes rc m] = (host atom, full label of the rule atom placed on it), [image_edges rc m] = (host atom,
     host atom, full label of the rule bond placed on the pair); [same_image] compares both as sets.  For matches on the rule
     centre: every raw match has the labelled image of a kept match, so ANY result that is a function of the labelled image
-    takes the same set of values on the kept matches as on all raw matches.  Gluing is such a function (the ITS graph is the
-    host with the rule's atom types and bond changes written onto the image: C05) - this replaces the abstract premise
-    "invariant under rule automorphisms" of C11_prune_same_results by "depends only on where each labelled rule atom and
-    bond lands".  [images_ok] is the computed form, evaluated on every rule application. *)
+    takes the same set of values on the kept matches as on all raw matches.  This replaces the abstract premise "invariant
+    under rule automorphisms" of C11_prune_same_results by the more concrete "depends only on where each labelled rule atom
+    and bond lands".  THAT GLUING IS SUCH A FUNCTION IS NOT PROVED ANYWHERE (no gluing model is instantiated for [res];
+    C05's equivariance theorem is about renumbering, not about [same_image]): it remains a premise, judged end to end by
+    the oracle on every rule application (set of standardised reactions and of ITS hashes with pruning on = with every
+    match of the search engine glued).  [images_ok] is the computed form, evaluated on every rule application. *)
 Theorem C11_prune_same_images :
   forall (X : Type) (key : X -> mapping) (rc : graph) (raw : list X),
     simple_graph rc ->
